@@ -336,8 +336,10 @@ class Result:
         ev = {"property_id": self.prop, "tier": self.tier, "seed": self.seed, "level": self.level,
               "coverage": cov, "assumptions": self.assumptions, "wall_s": round(time.time() - self.t0, 2),
               "violations": len(self.violations)}
-        os.makedirs(EVID, exist_ok=True)
-        with open(os.path.join(EVID, f"{self.prop}.json"), "w") as f:
+        # checks beyond the listed properties (ids X..) keep their evidence out of evidence/
+        evdir = os.path.join(WORK, "extras") if self.prop.startswith("X") else EVID
+        os.makedirs(evdir, exist_ok=True)
+        with open(os.path.join(evdir, f"{self.prop}.json"), "w") as f:
             json.dump(ev, f, indent=1, default=str)
         for pth, text in self.violations[:20]:
             log(f"VIOLATION property={self.prop} replay={pth}  {text}")
